@@ -3,11 +3,13 @@ sid=sys.argv[1]
 pid=sid.split('-')[0]
 prev=''
 if '-' in sid:
-    import os
-    mp=f'/verif/seeded/{pid}/meta.json'
-    if os.path.exists(mp):
+    import os, glob
+    prevs=[]
+    for mp in sorted(glob.glob(f'/verif/seeded/{pid}*/meta.json')):
         m=json.load(open(mp))
-        prev=f"\nAnother tester has ALREADY submitted the following change for this property; yours must be substantially different (a different function, mechanism or kind of trigger), not a variation of it:\n  - {m.get('summary','')[:700]}\n"
+        if m.get('property')==pid: prevs.append(m.get('summary','')[:600])
+    if prevs:
+        prev="\nOther testers have ALREADY submitted the following changes for this property; yours must be substantially different (a different function, mechanism or kind of trigger), not a variation of them:\n"+"".join(f"  - {x}\n" for x in prevs)
 props={json.loads(l)['id']:json.loads(l) for l in open('/verif/properties.jsonl')}
 p=props[pid]
 wt=f"/tmp/seed/{sid}"
